@@ -7,7 +7,7 @@
    the pinned definition (cfg_pinned) below.  Property theorems only; each closed by [exact lemma]. *)
 From AP.Model Require Import Prelude Vocab Pred Url IriEq IriNf Nlv Equal.
 From AP.Gen Require Import TypeLists.
-From AP.Proofs Require Import NlvP IriEqP EqualP EqualNfP.
+From AP.Proofs Require Import NlvP IriEqP EqualP EqualNfP EqualUrlP.
 
 (* ---- "Comparison ... always terminates": fuel_for x y is enough, more fuel changes nothing ---- *)
 Theorem C09_terminates : forall x y, exists n, forall m, n <= m ->
@@ -140,12 +140,26 @@ Proof. exact cmp_time_rejects. Qed.
 Theorem C09_block_duration : forall f fs gs,
   get_dur f gs <> 0%Z -> get_dur f gs <> get_dur f fs -> cmp_one cfg_fixed ieq (CDur f) fs gs = Ok false.
 Proof. exact cmp_dur_rejects. Qed.
+(* url is sensitive like every other item-valued property: whenever ItemsEqual tells the two url values apart -
+   single items, lists ("url ... identifies one or more links"), id-less links.  It counts as set when it is not
+   nil-like (its guard is IsNil where the siblings have != nil: a typed nil or empty IRI in the second argument asks
+   for nothing).  Before the fix "Object.Equals compared url by GetLink() only" the block compared the LINKS of the
+   two values, and the theorem could only say so (C09_block_url_links below, kept; C09_url_list_pinned_refuted). *)
 Theorem C09_block_url : forall fs gs,
+  is_nil (get_item F_URL gs) = false -> ieq (get_item F_URL fs) (get_item F_URL gs) = Ok false ->
+  cmp_one cfg_fixed ieq CUrl fs gs = Ok false.
+Proof. exact cmp_url_rejects. Qed.
+(* the statement as it was for the old comparison, now a corollary: ItemsEqual tells apart any two non-nil items
+   whose links differ (C09_links_differ) *)
+Theorem C09_block_url_links : forall fs gs,
   is_nil (get_item F_URL gs) = false ->
   (is_nil (get_item F_URL fs) = true \/
    iri_eqb (lnk (get_item F_URL gs)) (lnk (get_item F_URL fs)) false = false) ->
   cmp_one cfg_fixed ieq CUrl fs gs = Ok false.
-Proof. exact cmp_url_rejects. Qed.
+Proof. exact cmp_url_links_rejects. Qed.
+Theorem C09_links_differ : forall x y,
+  is_nil x = false -> is_nil y = false -> iri_eqb (lnk y) (lnk x) false = false -> ieq x y = Ok false.
+Proof. exact ieq_links_differ. Qed.
 (* item-valued properties holding IRIs: distinguishable = not IRI-equivalent *)
 Theorem C09_iris : forall p a q b, is_nil (IIri p a) = false -> is_nil (IIri q b) = false ->
   ieq (IIri p a) (IIri q b) = Ok (iri_eqb a b false).
@@ -211,6 +225,35 @@ Example C09_example_sensitive :
   In (CItem F_InReplyTo) object_cmps.
 Proof. repeat split; try (vm_compute; reflexivity). vm_compute. tauto. Qed.
 
+(* url holding lists / id-less links: the hypotheses of C09_block_url and C09_sensitive_core hold, in both orders *)
+Definition ex_url (u : item) : fields := [(F_ID, FStr ex_alice); (F_Type, FStr (B "Note")); (F_URL, FItem u)].
+Definition ex_carol := B "https://example.com/actors/carol".
+Definition ex_idless_link (h : bytes) : item := IObj true KLink [(F_Type, FStr (B "Link")); (F_Href, FStr h)].
+Example C09_example_url_lists :
+  let u1 := IItems false (Some [IIri false ex_alice; IIri false ex_carol]) in
+  let u2 := IItems false (Some [IIri false ex_bob; IIri false ex_carol]) in
+  is_nil u2 = false /\ ieq u1 u2 = Ok false /\ ieq u2 u1 = Ok false /\
+  cmp_one cfg_fixed ieq CUrl (ex_url u1) (ex_url u2) = Ok false /\ In CUrl object_cmps /\
+  ieq (IObj true KObject (ex_url u1)) (IObj true KObject (ex_url u2)) = Ok false /\
+  ieq (IObj true KObject (ex_url u2)) (IObj true KObject (ex_url u1)) = Ok false /\
+  ieq (IObj true KObject (ex_url (ex_idless_link ex_alice))) (IObj true KObject (ex_url (ex_idless_link ex_bob))) = Ok false /\
+  (* as before the fix: IRI against IRI ignores the scheme, an IRI equals the object it names, a typed nil url in
+     the second argument asks for nothing and nothing panics *)
+  ieq (IObj true KObject (ex_url (IIri false ex_alice)))
+      (IObj true KObject (ex_url (IIri false (B "http://example.com/actors/alice")))) = Ok true /\
+  ieq (IObj true KObject (ex_url (IIri false ex_bob))) (IObj true KObject (ex_url (ex_note ex_bob []))) = Ok true /\
+  ieq (IObj true KObject (ex_url (IIri false ex_bob))) (IObj true KObject (ex_url (ITNil KObject))) = Ok true /\
+  ieq (IObj true KObject (ex_url (ITNil KLink))) (IObj true KObject (ex_url (IIri false ex_bob))) = Ok false.
+Proof. cbv zeta. repeat split; try (vm_compute; reflexivity). vm_compute. tauto. Qed.
+(* the hypotheses of C09_links_differ / C09_block_url_links hold: an IRI against an object with another id, a link
+   against an IRI with another id *)
+Example C09_example_links_differ :
+  iri_eqb (lnk (ex_note ex_bob [])) (lnk (IIri false ex_alice)) false = false /\
+  ieq (IIri false ex_alice) (ex_note ex_bob []) = Ok false /\
+  iri_eqb (lnk (IIri false ex_bob)) (lnk ex_link) false = false /\ ieq ex_link (IIri false ex_bob) = Ok false /\
+  cmp_one cfg_fixed ieq CUrl (ex_url (IIri false ex_alice)) (ex_url (ex_note ex_bob [])) = Ok false.
+Proof. repeat split; vm_compute; reflexivity. Qed.
+
 (* ---- the pinned tree (each repaired by one fix: commit; the repaired model on the same witnesses is
    covered by the theorems above) ---- *)
 Theorem C09_refl_link_pinned_refuted : exists x, ieq_pinned x x = Ok false.
@@ -227,6 +270,31 @@ Proof. exists (IIris false (Some [ex_alice])). vm_compute. reflexivity. Qed.
 
 Theorem C09_no_panic_typed_nil_url_pinned_refuted : exists x p, ieq_pinned x x = Panic p.
 Proof. exists (ex_note ex_alice [(F_URL, FItem (ITNil KObject))]). eexists. vm_compute. reflexivity. Qed.
+
+(* url compared by GetLink() only (every other repair in place: cfg_url_links_pinned): GetLink() of a list is the
+   empty IRI and of a link its id, so copies whose url lists differ in a member - one-member lists, the first of two
+   members - and copies whose urls are id-less links with different hrefs were equal, in both argument orders, although
+   ItemsEqual tells the url values apart *)
+Theorem C09_url_list_pinned_refuted : exists u1 u2,
+  is_nil u1 = false /\ is_nil u2 = false /\ ieq u1 u2 = Ok false /\ ieq u2 u1 = Ok false /\
+  ieq_url_links_pinned (IObj true KObject (ex_url u1)) (IObj true KObject (ex_url u2)) = Ok true /\
+  ieq_url_links_pinned (IObj true KObject (ex_url u2)) (IObj true KObject (ex_url u1)) = Ok true.
+Proof.
+  exists (IItems false (Some [IIri false ex_alice])), (IItems false (Some [IIri false ex_bob])).
+  repeat split; vm_compute; reflexivity.
+Qed.
+Theorem C09_url_list_first_member_pinned_refuted : exists u1 u2,
+  ieq u1 u2 = Ok false /\
+  ieq_url_links_pinned (IObj true KObject (ex_url u1)) (IObj true KObject (ex_url u2)) = Ok true.
+Proof.
+  exists (IItems false (Some [IIri false ex_alice; IIri false ex_carol])),
+         (IItems false (Some [IIri false ex_bob; IIri false ex_carol])).
+  split; vm_compute; reflexivity.
+Qed.
+Theorem C09_url_idless_link_pinned_refuted : exists u1 u2,
+  ieq u1 u2 = Ok false /\
+  ieq_url_links_pinned (IObj true KObject (ex_url u1)) (IObj true KObject (ex_url u2)) = Ok true.
+Proof. exists (ex_idless_link ex_alice), (ex_idless_link ex_bob). split; vm_compute; reflexivity. Qed.
 
 (* a CollectionPage equal to a Collection with another id and another type *)
 Theorem C09_id_conversion_error_pinned_refuted : exists x y,
@@ -634,12 +702,24 @@ Theorem C09_block_items_u : forall f fs gs l,
   get_items f gs = Some l -> ieq_u (IItems false (get_items f fs)) (IItems false (Some l)) = Ok false ->
   cmp_one_u cfg_fixed ieq_u (CItems f) fs gs = Ok false.
 Proof. exact cmp_u_items_rejects. Qed.
+(* url at full strength on the wide instance too (see C09_block_url) *)
 Theorem C09_block_url_u : forall fs gs,
-  is_nil (get_item F_URL gs) = false ->
+  is_nil (get_item F_URL gs) = false -> ieq_u (get_item F_URL fs) (get_item F_URL gs) = Ok false ->
+  cmp_one_u cfg_fixed ieq_u CUrl fs gs = Ok false.
+Proof. exact cmp_u_url_rejects. Qed.
+(* the statement C09_block_url_u had for the old comparison (links differ).  FULL statement: the same without the first
+   hypothesis.  PARTIAL: it is derived (like C09_block_url_links) from "IRI.Equals with the scheme compared is finer
+   than without", which is proved for iri_eqb (Proofs/EqualUrlP.v iri_eqb_strict_loose) and NOT for iri_equ: its
+   letter folding works on runes of different byte lengths, so that strip_scheme commutes with it needs an argument on
+   rune boundaries, and its slow path goes through url_classify_u.  Two cases need no hypothesis: the url of the first
+   argument unset (C09_nil_u), and either url an IRI (C09_iris_u / ItemsEqual's IRI branch compares without scheme). *)
+Theorem C09_block_url_links_u_partial :
+  (forall a b, iri_equ a b true = true -> iri_equ a b false = true) ->
+  forall fs gs, is_nil (get_item F_URL gs) = false ->
   (is_nil (get_item F_URL fs) = true \/
    iri_equ (lnk (get_item F_URL gs)) (lnk (get_item F_URL fs)) false = false) ->
   cmp_one_u cfg_fixed ieq_u CUrl fs gs = Ok false.
-Proof. exact cmp_u_url_rejects. Qed.
+Proof. exact cmp_u_url_links_rejects_partial. Qed.
 (* item-valued properties holding IRIs: distinguishable = not IRI-equivalent; on the wide domain = another normal form *)
 Theorem C09_iris_u : forall p a q b, is_nil (IIri p a) = false -> is_nil (IIri q b) = false ->
   ieq_u (IIri p a) (IIri q b) = Ok (iri_equ a b false).
@@ -672,6 +752,31 @@ Example C09_example_id_u :
   ieq_u (ex_note_u a) (ex_note_u b) = Ok false /\ ieq_u (IIri false d) (ex_note_u d') = Ok true /\
   ieq_u (ex_note_u d) (ex_note_u f) = Ok false.
 Proof. cbv zeta. repeat split; vm_compute; reflexivity. Qed.
+
+(* url on the wide instance: lists whose members are ids outside the plain grammar (an escaped letter against an
+   escaped percent sign); the hypotheses of C09_block_url_u hold, the copies are unequal in both orders; with the old
+   comparison by GetLink() (cfg_url_links_pinned over iri_equ) they were equal *)
+Example C09_example_url_lists_u :
+  let a := B "https://example.com/users/%41lice?k=%4a" in
+  let b := B "https://example.com/users/%2541lice?k=%4a" in
+  let u1 := IItems false (Some [IIri false a; IIri false ex_carol]) in
+  let u2 := IItems false (Some [IIri false b; IIri false ex_carol]) in
+  is_nil u2 = false /\ ieq_u u1 u2 = Ok false /\ ieq_u u2 u1 = Ok false /\
+  cmp_one_u cfg_fixed ieq_u CUrl (ex_url u1) (ex_url u2) = Ok false /\
+  ieq_u (IObj true KObject (ex_url u1)) (IObj true KObject (ex_url u2)) = Ok false /\
+  ieq_u (IObj true KObject (ex_url u2)) (IObj true KObject (ex_url u1)) = Ok false /\
+  ieq_u (IObj true KObject (ex_url (IIri false a)))
+        (IObj true KObject (ex_url (IIri false (B "http://EXAMPLE.com/users/alice?k=%4A")))) = Ok true.
+Proof. cbv zeta. repeat split; vm_compute; reflexivity. Qed.
+Theorem C09_url_list_u_pinned_refuted : exists u1 u2,
+  is_nil u1 = false /\ is_nil u2 = false /\ ieq_u u1 u2 = Ok false /\
+  EqGI.ieq_url_links_pinned iri_equ (IObj true KObject (ex_url u1)) (IObj true KObject (ex_url u2)) = Ok true /\
+  EqGI.ieq_url_links_pinned iri_equ (IObj true KObject (ex_url u2)) (IObj true KObject (ex_url u1)) = Ok true.
+Proof.
+  exists (IItems false (Some [IIri false (B "https://example.com/users/%41lice?k=%4a")])),
+         (IItems false (Some [IIri false (B "https://example.com/users/%2541lice?k=%4a")])).
+  repeat split; vm_compute; reflexivity.
+Qed.
 
 (* ---- the wide model under the translator (builder b47) ----
    The table ties of the blocks above (b26, b32) are generic in the IRI comparison too (modules EtGP, ItGP, CcGP of
